@@ -115,10 +115,16 @@ def _install():
             mon.fail("augmented-rhs", "right-hand side = velocity term rounded to 3 decimals, then the number of interfaces",
                      diff=float(np.abs(rec["b"] - rexp).max()) if rec["b"].shape == rexp.shape else None)
             return True
-        # reported tensions
-        x = np.array([result[i] for i in range(n)], float) if all(i in result for i in range(n)) else None
-        if x is None or len([k for k in result if isinstance(k, (int, np.integer))]) != n:
-            mon.fail("result-shape", "one reported tension per unknown", keys=list(result)[:6], n=n)
+        # reported tensions: one value per internal interface, -1 at interfaces excluded by an angle limit (C16's subject),
+        # the values of the unknowns at the remaining positions
+        internal = [b.get_vertices_ids() for b in self.frame.internal_big_edges]
+        is_ex = [(p_[0] in self.deletes and p_[-1] in self.deletes) for p_ in internal]
+        keys_ok = all(i in result for i in range(len(internal))) and \
+            len([k_ for k_ in result if isinstance(k_, (int, np.integer))]) == len(internal)
+        x = np.array([result[i] for i in range(len(internal)) if not is_ex[i]], float) if keys_ok else None
+        if x is None or len(x) != n:
+            mon.fail("result-shape", "one reported tension per unknown", keys=list(result)[:6], n=n, internal=len(internal),
+                     excluded=int(sum(is_ex)))
             return True
         if not np.all(np.isfinite(x)):
             mon.fail("non-finite", "all reported values are finite")
@@ -293,7 +299,13 @@ def run_case(case):
                 else:
                     combos = [(METHODS[int(rng.integers(len(METHODS)))], bool(rng.integers(2))) for _i in range(3)]
                 for method, allow in combos:
-                    solver.build_force_matrix(when=0, circle_fit_method=fit)
+                    if fam == "noisy" and rng.random() < 0.35:
+                        # an angle limit that excludes a few interfaces: the sum row must count the REMAINING unknowns
+                        solver.build_force_matrix(when=0, circle_fit_method=fit, angle_limit=float(rng.uniform(0.75, 0.95) * np.pi))
+                        nex = len(fr.internal_big_edges) - len(solver.force_matrices[0].big_edges_to_use)
+                        hist["with-excluded-interfaces"] = hist.get("with-excluded-interfaces", 0) + int(nex > 0)
+                    else:
+                        solver.build_force_matrix(when=0, circle_fit_method=fit)
                     _solve(solver, 0, method, allow, mon, hist, sigs, fam, "static")
         elif fam == "velocity":
             for _ in range(case["count"]):
